@@ -269,3 +269,13 @@ def int_value(n: Dict[str, Any]) -> Optional[int]:
         except KeyError:
             return None
     return None
+
+
+def dispatcher_of(cu: 'CUnit', impl: str) -> str:
+    """the static function that dispatches to a force-inlined loop body (the unique caller of `impl`) - found by the call, so a
+    rename of the dispatcher changes nothing."""
+    callers = sorted({f for f in cu.funcs if f != impl and any(c.get('kind') == 'CallExpr' and callee(c) == impl for c in walk(cu.body(f)))})
+    if len(callers) != 1:
+        from .core import AnalysisError
+        raise AnalysisError(f'{impl}: expected exactly one dispatching caller, found {callers}')
+    return callers[0]
